@@ -145,6 +145,47 @@ pub fn run(seed: u64, tier: &str, w: &mut dyn Write) -> usize {
             writeln!(w, "c03 1 {bi} indices-ignored - = {}", verdict_comp(&b.data, t, &comp)).unwrap();
             n += 1;
         }
+        // model comparison: tampered proofs replayed by the Gallina verifier (Model/Plonk.v)
+        if b.data.common.fri_params.degree_bits <= 7 {
+            let mut ls = vec![]; let mut arrs = vec![];
+            leaves(&root, &mut vec![], &mut ls, &mut arrs);
+            let nm = if tier == "thorough" { 120 } else { 25 };
+            let mut o0 = vec![];
+            if dump_common(&mut o0, &b.data.common).is_ok() {
+                dump_verifier_only(&mut o0, &b.data.verifier_only);
+                for k in 0..nm {
+                    let mut t = root.clone();
+                    let path = if k % 5 == 0 { ls[(k / 5) % ls.len()].clone() } else { r.pick(&ls).clone() };
+                    let cur = at(&mut t, &path);
+                    let old = cur.as_u64().unwrap_or(0);
+                    *cur = Value::from(if k % 3 == 0 { r.next_u64() % P } else if old % P == P - 1 { 0 } else { old + 1 });
+                    if let Ok(q) = serde_json::from_value::<ProofWithPublicInputs<F, C, D>>(t) {
+                        let v = verdict(&b.data, q.clone());
+                        if v == "panic" { continue; }
+                        let mut o = o0.clone();
+                        dump_proof(&mut o, &q);
+                        writeln!(w, "{}", line("plonkverify", &o, if v == "ok" { "1" } else { "0" })).unwrap();
+                        n += 1;
+                    }
+                }
+                // list-shape tampers too
+                for k in 0..(nm / 5) {
+                    let mut t = root.clone();
+                    let path = r.pick(&arrs).clone();
+                    let a = at(&mut t, &path).as_array_mut().unwrap();
+                    if a.is_empty() { continue; }
+                    if k % 2 == 0 { a.pop(); } else { let l = a.last().cloned().unwrap(); a.push(l); }
+                    if let Ok(q) = serde_json::from_value::<ProofWithPublicInputs<F, C, D>>(t) {
+                        let v = verdict(&b.data, q.clone());
+                        if v == "panic" { continue; }
+                        let mut o = o0.clone();
+                        dump_proof(&mut o, &q);
+                        writeln!(w, "{}", line("plonkverify", &o, if v == "ok" { "1" } else { "0" })).unwrap();
+                        n += 1;
+                    }
+                }
+            }
+        }
         built.push((p, b));
     }
     // other circuits: same program with one constant changed (same shape, different constants /
